@@ -90,16 +90,18 @@ pub struct Peek {
     pub buf: Option<usize>,
     pub resp: bool,
     pub b2: Option<(u16, bool, u8)>,
+    pub szx: Option<u8>,
 }
 
 fn peek_token(p: &Option<Peek>) -> String {
     match p {
         None => "Knone".into(),
         Some(p) => format!(
-            "Kbuf={},resp={},b2={}",
+            "Kbuf={},resp={},b2={},szx={}",
             p.buf.map(|x| x.to_string()).unwrap_or("n".into()),
             p.resp as u8,
-            p.b2.map(|(n, m, s)| format!("{}/{}/{}", n, m as u8, s)).unwrap_or("n".into())
+            p.b2.map(|(n, m, s)| format!("{}/{}/{}", n, m as u8, s)).unwrap_or("n".into()),
+            p.szx.map(|x| x.to_string()).unwrap_or("n".into())
         ),
     }
 }
@@ -145,7 +147,7 @@ impl Session {
         }
     }
     fn peek_of(&self, req: &CoapRequest<u8>) -> Option<Peek> {
-        self.handler.verif_peek(req).map(|(buf, resp, b2)| Peek { buf, resp, b2: b2.map(|b| (b.num, b.more, b.size_exponent)) })
+        self.handler.verif_peek(req).map(|(buf, resp, b2, szx)| Peek { buf, resp, b2: b2.map(|b| (b.num, b.more, b.size_exponent)), szx })
     }
     pub fn step(&mut self, op: Op) -> StepOut {
         let out = match &op {
@@ -1499,6 +1501,42 @@ pub fn run(cx: &mut Ctx) {
             if !ok {
                 cx.oracle_fail("C09", &line, &format!("request with {} payload bytes (budget {}) and no Block1 was not answered 4.13 with a Block1 hint: {}", m + 10, m, o.outcome.token()));
             }
+        }
+    }
+    // a follow-up request names a LARGER block size than the one negotiated for the cached reply (the client
+    // is free to ask; what it gets must still fit the budget, and be the bytes at the offset it named)
+    for shape in shapes.iter().take(2) {
+        for &(m, big) in &[(64usize, 6u8), (64, 2), (100, 6), (128, 4), (300, 6), (1152, 7)] {
+            let body = body_of(&mut rng, 3000);
+            let mut sess = Session::new(m, 60000);
+            let mut problems: Vec<(&'static str, String)> = vec![];
+            let o = sess.step(Op::Req(1, shape.spec(1, None, None, &[])));
+            if o.outcome == Outcome::Ok(false) {
+                let a = sess.step(Op::App(0x45, vec![], body.clone()));
+                let neg = a.resp.as_ref().and_then(|r| first_opt(r, 23)).and_then(|b| parse_bv(&b)).map(|x| x.2);
+                let ovq = overhead_of(&shape.spec(2, None, Some(bv_bytes(1, false, big)), &[]).build());
+                if let (Outcome::Ok(true), Some(szx)) = (&a.outcome, neg) {
+                    for num in [1usize, 2] {
+                        let f = sess.step(Op::Req(1, shape.spec(2 + num as u16, None, Some(bv_bytes(num, false, big)), &[])));
+                        if m >= ovq + 28 && m <= 1280 {
+                            if let (Outcome::Ok(true), Some(r)) = (&f.outcome, &f.resp) {
+                                let wl = r.to_bytes_unlimited().map(|b| b.len()).unwrap_or(usize::MAX);
+                                if wl > m {
+                                    problems.push(("C10", format!("follow-up asking for size {} (negotiated {}): the reply has {} bytes, budget {}", 16usize << big, 16usize << szx, wl, m)));
+                                }
+                                if let Some((n2, mo, s2)) = first_opt(r, 23).and_then(|b| parse_bv(&b)) {
+                                    let off = n2 * (16usize << s2);
+                                    let want: Vec<u8> = body.iter().skip(off).take(16usize << s2).cloned().collect();
+                                    if off != num * (16usize << big) || r.payload != want || mo != (off + (16usize << s2) < body.len()) {
+                                        problems.push(("C08", format!("follow-up for offset {} answered with block {} of size {} (offset {}), {} payload bytes", num * (16usize << big), n2, 16usize << s2, off, r.payload.len())));
+                                    }
+                                }
+                            }
+                        }
+                    }
+                }
+            }
+            report(cx, &sess, problems);
         }
     }
     // a key whose transfer has completed asks for a later block again; the reply has grown
